@@ -75,6 +75,16 @@ void eval(Ctx& c) {
 void reg_axi() {
   struct { const char* n; const char* p; int na; } L[] = {{"axisymmetric_euler", "C02", 2}, {"axi_euler_transient", "C02", 3},
                                                          {"axisymmetric_navierstokes_compressible", "C03", 2}, {"axi_cns_transient", "C03", 3}};
-  for (auto& l : L) { Sol s; s.name = l.n; s.prop = l.p; s.nargs = l.na; s.draw = draw; s.point = point; s.eval = eval; add(s); }
+  for (auto& l : L) {
+    Sol s; s.name = l.n; s.prop = l.p; s.nargs = l.na; s.draw = draw; s.point = point; s.eval = eval;
+    s.zero_coord_from = 1;   // r > 0; z and t may be exactly 0
+    s.special_ok = [](const std::string& n) {
+      if (n.rfind("a_", 0) == 0 || n == "k" || n == "mu" || n == "w_0") return 2;
+      if (n.rfind("u_", 0) == 0 || n.rfind("w_", 0) == 0) return 2;
+      if (n.rfind("rho_", 0) == 0 || n.rfind("p_", 0) == 0) return (n == "rho_0" || n == "p_0") ? 0 : 1;
+      return 0;
+    };
+    add(s);
+  }
 }
 }  // namespace orc
